@@ -585,12 +585,12 @@ pub fn property() -> Property {
                 name: "gen",
                 f: gen_case,
                 max_len: 1200,
-                quick: Budget { threads: 8, cases: 4000 },
-                thorough: Budget { threads: 16, cases: 100_000 },
+                quick: Budget { threads: 16, cases: 10000 },
+                thorough: Budget { threads: 16, cases: 150_000 },
                 keep_unreproducible: false,
             }),
-            Sub::Bytes(BytesSub { name: "towers", f: towers, max_len: 64, quick: Budget { threads: 8, cases: 3000 }, thorough: Budget { threads: 16, cases: 150_000 }, keep_unreproducible: false }),
-            Sub::Bytes(BytesSub { name: "variable-api", f: variable_api, max_len: 600, quick: Budget { threads: 4, cases: 3000 }, thorough: Budget { threads: 16, cases: 100_000 }, keep_unreproducible: false }),
+            Sub::Bytes(BytesSub { name: "towers", f: towers, max_len: 64, quick: Budget { threads: 8, cases: 12000 }, thorough: Budget { threads: 16, cases: 150_000 }, keep_unreproducible: false }),
+            Sub::Bytes(BytesSub { name: "variable-api", f: variable_api, max_len: 600, quick: Budget { threads: 4, cases: 10000 }, thorough: Budget { threads: 16, cases: 100_000 }, keep_unreproducible: false }),
             Sub::Custom(CustomSub { name: "comparison-matrix", run: comparison_matrix, replay: replay_matrix }),
             Sub::Custom(CustomSub { name: "cross", run: cross, replay: replay_cross }),
             Sub::Custom(CustomSub { name: "repeats", run: repeats, replay: replay_repeat }),
